@@ -122,6 +122,9 @@ def build_vhd(p):
     ft[8:12] = struct.pack('>I', 2)
     ft[12:16] = struct.pack('>I', 0x00010000)
     ft[16:24] = struct.pack('>Q', 512)
+    ca = p.get('creator')
+    if ca:
+        ft[28:32] = ca.encode('latin-1')[:4].ljust(4, b'\x00')
     ft[40:48] = struct.pack('>Q', size)        # original size
     ft[48:56] = struct.pack('>Q', _pget(p, 'cur_size', size))
     ft[60:64] = struct.pack('>I', 3)
@@ -168,8 +171,15 @@ def build_vhdx(p):
         mt += VHDX_VDS + struct.pack('<IIII', item_offset & 0xffffffff,
                                      item_length & 0xffffffff,
                                      _pget(p, 'item_flags', 0x6), 0)
+    dup = _pget(p, 'user_dup', 0) if m_after else 0
     for _i in range(m_after):
-        mt += pad_guid() + struct.pack('<IIII', 64 * KI + 8192, 4, 0, 0)
+        if _i >= m_after - dup:
+            # a USER metadata item (IsUser, bit 0) that reuses the virtual
+            # disk size GUID - a separate namespace in MS-VHDX - listed after
+            # the system item and pointing at unrelated bytes
+            mt += VHDX_VDS + struct.pack('<IIII', 64 * KI + 8192, 8, 0x1, 0)
+        else:
+            mt += pad_guid() + struct.pack('<IIII', 64 * KI + 8192, 4, 0, 0)
 
     # region table
     r_count = _pget(p, 'r_count', r_before + 1 + r_after)
